@@ -363,9 +363,9 @@ class Simulator(EventProducer, SimulatorInterface, Generic[TIME]):
         self._run_until_including = run_until_including
         self._run_state = RunState.STARTING
         if self._replication_state == ReplicationState.INITIALIZED:
+            self._replication_state = ReplicationState.STARTED
             self.fire_timed(self._simulator_time,
                 ReplicationInterface.START_REPLICATION_EVENT, None)
-            self._replication_state = ReplicationState.STARTED
         self.fire(Simulator.STARTING_EVENT, None)
         # wake up the run() method of the worker thread to start Simulator.run
         self.__worker.wakeup()
@@ -410,11 +410,13 @@ class Simulator(EventProducer, SimulatorInterface, Generic[TIME]):
         if self._simulator_time >= self._replication.end_sim_time:
             raise DSOLError("cannot start: simulator_time > run length")
         try:
+            # change the state before notifying, so a listener cannot start
+            # the simulator (again) from inside the notification
+            self._run_state = RunState.STARTED
             if self._replication_state == ReplicationState.INITIALIZED:
+                self._replication_state = ReplicationState.STARTED
                 self.fire_timed(self._simulator_time,
                     ReplicationInterface.START_REPLICATION_EVENT, None)
-                self._replication_state = ReplicationState.STARTED
-            self._run_state = RunState.STARTED
             self.fire_timed(self._simulator_time,
                             Simulator.START_EVENT, None)
             self._step_impl()
